@@ -3,7 +3,7 @@
 From Coq Require Import List Bool.
 From Coq Require Import NArith Arith.
 From Carquet Require Import Base.Res Gen.Dispatch_gen Gen.Intrinsics_gen Simd.DispatchModel Simd.DispatchProofs.
-From Carquet Require Import Simd.Vec Simd.ScalarKernels Simd.SseKernels Simd.Avx2Kernels Simd.Avx512Kernels Simd.BssProofs Simd.SeqProofs Simd.MemProofs Simd.LevelProofs Simd.PackProofs Simd.PsumProofs.
+From Carquet Require Import Simd.Vec Simd.ScalarKernels Simd.SseKernels Simd.Avx2Kernels Simd.Avx512Kernels Simd.BssProofs Simd.SeqProofs Simd.MemProofs Simd.LevelProofs Simd.PackProofs Simd.PsumProofs Simd.UnpackProofs.
 Import ListNotations.
 
 (** Dispatcher: for EVERY capability set (any list of features) and every slot of the dispatch table
@@ -237,3 +237,46 @@ Theorem avx512_prefix_sum_i64_kernel_eq_scalar : forall count buf init,
   exists out, avx512_prefix_sum_i64 count buf init = Ok out /\ scalar_prefix_sum 8 count buf init = Ok out.
 Proof. exact avx512_prefix_sum_i64_eq_scalar. Qed.
 Print Assumptions avx512_prefix_sum_i64_kernel_eq_scalar.
+
+(** fixed-width bit unpackers: N values of W bits, LSB first, widened to uint32 ([scalar_bitunpack W N] is the generic
+    meaning; the driver also compares with carquet_bitunpack8_32 of core/bitpack.c) *)
+Theorem sse_bitunpack32_1bit_kernel_eq_scalar : forall inp,
+  length inp = 4 -> bytes_ok inp -> sse_bitunpack32_1bit inp = Ok (scalar_bitunpack 1 32 inp).
+Proof. exact sse_bitunpack32_1bit_eq_scalar. Qed.
+Print Assumptions sse_bitunpack32_1bit_kernel_eq_scalar.
+Theorem sse_bitunpack8_4bit_kernel_eq_scalar : forall inp,
+  length inp = 4 -> bytes_ok inp -> sse_bitunpack8_4bit inp = Ok (scalar_bitunpack 4 8 inp).
+Proof. exact sse_bitunpack8_4bit_eq_scalar. Qed.
+Print Assumptions sse_bitunpack8_4bit_kernel_eq_scalar.
+Theorem sse_bitunpack8_8bit_kernel_eq_scalar : forall inp,
+  length inp = 8 -> bytes_ok inp -> sse_bitunpack8_8bit inp = Ok (scalar_bitunpack 8 8 inp).
+Proof. exact sse_bitunpack8_8bit_eq_scalar. Qed.
+Print Assumptions sse_bitunpack8_8bit_kernel_eq_scalar.
+Theorem avx2_bitunpack64_1bit_kernel_eq_scalar : forall inp,
+  length inp = 8 -> bytes_ok inp -> avx2_bitunpack64_1bit inp = Ok (scalar_bitunpack 1 64 inp).
+Proof. exact avx2_bitunpack64_1bit_eq_scalar. Qed.
+Print Assumptions avx2_bitunpack64_1bit_kernel_eq_scalar.
+Theorem avx2_bitunpack16_4bit_kernel_eq_scalar : forall inp,
+  length inp = 8 -> bytes_ok inp -> avx2_bitunpack16_4bit inp = Ok (scalar_bitunpack 4 16 inp).
+Proof. exact avx2_bitunpack16_4bit_eq_scalar. Qed.
+Print Assumptions avx2_bitunpack16_4bit_kernel_eq_scalar.
+Theorem avx2_bitunpack16_8bit_kernel_eq_scalar : forall inp,
+  length inp = 16 -> bytes_ok inp -> avx2_bitunpack16_8bit inp = Ok (scalar_bitunpack 8 16 inp).
+Proof. exact avx2_bitunpack16_8bit_eq_scalar. Qed.
+Print Assumptions avx2_bitunpack16_8bit_kernel_eq_scalar.
+Theorem avx2_bitunpack8_16bit_kernel_eq_scalar : forall inp,
+  length inp = 16 -> bytes_ok inp -> avx2_bitunpack8_16bit inp = Ok (scalar_bitunpack 16 8 inp).
+Proof. exact avx2_bitunpack8_16bit_eq_scalar. Qed.
+Print Assumptions avx2_bitunpack8_16bit_kernel_eq_scalar.
+Theorem avx512_bitunpack32_8bit_kernel_eq_scalar : forall inp,
+  length inp = 32 -> bytes_ok inp -> avx512_bitunpack32_8bit inp = Ok (scalar_bitunpack 8 32 inp).
+Proof. exact avx512_bitunpack32_8bit_eq_scalar. Qed.
+Print Assumptions avx512_bitunpack32_8bit_kernel_eq_scalar.
+Theorem avx512_bitunpack16_16bit_kernel_eq_scalar : forall inp,
+  length inp = 32 -> bytes_ok inp -> avx512_bitunpack16_16bit inp = Ok (scalar_bitunpack 16 16 inp).
+Proof. exact avx512_bitunpack16_16bit_eq_scalar. Qed.
+Print Assumptions avx512_bitunpack16_16bit_kernel_eq_scalar.
+Theorem avx512_bitunpack32_4bit_kernel_eq_scalar : forall inp,
+  length inp = 16 -> bytes_ok inp -> avx512_bitunpack32_4bit inp = Ok (scalar_bitunpack 4 32 inp).
+Proof. exact avx512_bitunpack32_4bit_eq_scalar. Qed.
+Print Assumptions avx512_bitunpack32_4bit_kernel_eq_scalar.
